@@ -151,7 +151,23 @@ const (
 	StyleNative
 )
 
+// bare: identifiers a person writes without quotes (longer lower-case words; the short ones stay quoted so that both forms occur).
+func bare(id string) bool {
+	if len(id) < 5 {
+		return false
+	}
+	for i := 0; i < len(id); i++ {
+		if c := id[i]; !(c >= 'a' && c <= 'z' || c == '_' || i > 0 && c >= '0' && c <= '9') {
+			return false
+		}
+	}
+	return true
+}
+
 func q(style Style, id string) string {
+	if style == StyleNative && bare(id) {
+		return id
+	}
 	if style == StyleNative {
 		return `"` + strings.ReplaceAll(id, `"`, `""`) + `"`
 	}
